@@ -438,15 +438,17 @@ Lemma send_p_spec : forall s sender dest amount fee token s' evs,
   obs_ext s' = obs_ext s /\ evs = [EvTxCreated (next_tx s)] /\ pending s' = pending s /\
   ((kind_of (toks s) token = Some KNative /\ relation s' = relation s /\
     base_to_bridge (bal s) KNative sender token (amount + fee) = ROk (bal s')) \/
-   (kind_of (toks s) token = Some KCoin /\ relation s' = next_tx s :: relation s /\
-    exists l0 l1, debit (bal s) (sender, token, 2) (amount + fee) = ROk l0 /\ debit l0 (ERC20MOD, token, 0) (amount + fee) = ROk l1 /\
-      base_to_bridge (credit l1 (sender, token, 0) (amount + fee)) KCoin sender token (amount + fee) = ROk (bal s'))).
+   (exists k, kind_of (toks s) token = Some k /\ erc20_kind k = true /\ relation s' = next_tx s :: relation s /\
+    exists l0, erc20_in (bal s) k sender token (amount + fee) = ROk l0 /\
+      base_to_bridge l0 k sender token (amount + fee) = ROk (bal s'))).
 Proof.
   unfold do_send_p; intros. des H.
   apply orb_false_iff in E. destruct E as [E1 E2]. apply Z.leb_gt in E1. apply Z.ltb_ge in E2.
-  destruct (kind_of (toks s) token) as [[| |]|] eqn:K; try discriminate; mon; simpl in *.
-  - apply add_unbatched_perm in H1. repeat split; auto.
-  - apply add_unbatched_perm in H3. repeat split; auto. right. repeat split; auto. eauto.
+  destruct (kind_of (toks s) token) as [k|] eqn:K; [|discriminate].
+  destruct k; cbn [erc20_kind negb] in H; try discriminate; mon; simpl.
+  - apply add_unbatched_perm in H1. simpl in H1. repeat split; auto.
+  - apply add_unbatched_perm in H2. simpl in H2. repeat split; auto. right. exists KCoin. repeat split; auto. eauto.
+  - apply add_unbatched_perm in H2. simpl in H2. repeat split; auto. right. exists KErc. repeat split; auto. eauto.
 Qed.
 
 Lemma cancel_spec : forall s id who s' evs, NoDup (ids (pool s)) ->
@@ -491,6 +493,26 @@ Proof.
   - eapply remove_unbatched_perm; eauto.
   - apply add_unbatched_perm in H2. exact H2.
   - exists t0; auto.
+Qed.
+
+Lemma increase_p_spec : forall s id who add token s' evs, NoDup (ids (pool s)) ->
+  do_increase_p s id who add token = ROk (s', evs) ->
+  0 < add /\
+  exists x L, In x (pool s) /\ tx_id x = id /\ tx_token x = token /\
+    Permutation (pool s) (x :: L) /\ Permutation (pool s') (with_fee x (tx_fee x + add) :: L) /\
+    batches s' = batches s /\ calls s' = calls s /\
+    next_tx s' = next_tx s /\ next_batch s' = next_batch s /\ next_call s' = next_call s /\
+    obs_ext s' = obs_ext s /\ evs = [] /\ relation s' = relation s /\ pending s' = pending s /\
+    exists k, kind_of (toks s) token = Some k /\ fee_in (bal s) k who token add = ROk (bal s').
+Proof.
+  unfold do_increase_p; intros s id who add token s' evs ND H. des H. des H. mon. des H. des H. mon. simpl.
+  apply orb_false_iff in E. destruct E as [_ E]. apply Z.leb_gt in E.
+  apply find_by_id_in in E1. destruct E1 as [Hin Hid].
+  apply negb_false_iff, Z.eqb_eq in E2.
+  split; auto. exists t0, x0. repeat split; auto.
+  - eapply remove_unbatched_perm; eauto.
+  - apply add_unbatched_perm in H2. exact H2.
+  - exists t; auto.
 Qed.
 
 Lemma batch_insert_perm : forall x l, (forall y, In y l -> b_nonce y <> b_nonce x) ->
@@ -645,11 +667,13 @@ Qed.
 Definition is_send (o : op) (sender dest amount fee token : Z) : Prop :=
   o = Send sender dest amount fee token \/ o = SendP sender dest amount fee token.
 Definition evm_erc20_send (s : state) (o : op) : Prop :=
-  exists a b c d t, o = SendP a b c d t /\ kind_of (toks s) t = Some KCoin.
+  exists a b c d t k, o = SendP a b c d t /\ kind_of (toks s) t = Some k /\ erc20_kind k = true.
+Definition is_fee_inc (o : op) (id who add token : Z) : Prop :=
+  (exists which, o = IncreaseFee id who add token which) \/ o = IncreaseFeeP id who add token.
 
 Inductive tx_change (s s' : state) : op -> Prop :=
 | TC_none : forall o, Permutation (live s') (live s) -> next_tx s' = next_tx s ->
-    (match o with Send _ _ _ _ _ | SendP _ _ _ _ _ | Cancel _ _ | IncreaseFee _ _ _ _ _ | BatchExecuted _ _ _ => False | _ => True end) ->
+    (match o with Send _ _ _ _ _ | SendP _ _ _ _ _ | Cancel _ _ | IncreaseFee _ _ _ _ _ | IncreaseFeeP _ _ _ _ | BatchExecuted _ _ _ => False | _ => True end) ->
     tx_change s s' o
 | TC_send : forall o sender dest amount fee token, is_send o sender dest amount fee token ->
     Permutation (live s') (mk_tx (next_tx s) sender dest token amount fee :: live s) ->
@@ -657,10 +681,10 @@ Inductive tx_change (s s' : state) : op -> Prop :=
     next_tx s' = next_tx s + 1 -> tx_change s s' o
 | TC_cancel : forall id who x, In x (pool s) -> tx_id x = id -> tx_sender x = who ->
     Permutation (live s) (x :: live s') -> next_tx s' = next_tx s -> tx_change s s' (Cancel id who)
-| TC_fee : forall id who add token which x L, In x (pool s) -> tx_id x = id -> 0 < add ->
+| TC_fee : forall o id who add token x L, is_fee_inc o id who add token -> In x (pool s) -> tx_id x = id -> 0 < add ->
     Permutation (live s) (x :: L) -> Permutation (live s') (with_fee x (tx_fee x + add) :: L) ->
     In (with_fee x (tx_fee x + add)) (pool s') ->
-    next_tx s' = next_tx s -> tx_change s s' (IncreaseFee id who add token which)
+    next_tx s' = next_tx s -> tx_change s s' o
 | TC_exec : forall token nonce h b, In b (batches s) -> b_token b = token -> b_nonce b = nonce ->
     Permutation (live s) (b_txs b ++ live s') -> next_tx s' = next_tx s ->
     tx_change s s' (BatchExecuted token nonce h).
@@ -720,15 +744,15 @@ Proof.
 Qed.
 
 Lemma not_send_not_evm : forall s o,
-  (match o with Send _ _ _ _ _ | SendP _ _ _ _ _ | Cancel _ _ | IncreaseFee _ _ _ _ _ | BatchExecuted _ _ _ => False | _ => True end) ->
+  (match o with Send _ _ _ _ _ | SendP _ _ _ _ _ | Cancel _ _ | IncreaseFee _ _ _ _ _ | IncreaseFeeP _ _ _ _ | BatchExecuted _ _ _ => False | _ => True end) ->
   ~ evm_erc20_send s o.
-Proof. intros s o H (a & b & c & d & t & -> & _). exact H. Qed.
+Proof. intros s o H (a & b & c & d & t & k & -> & _). exact H. Qed.
 
 Lemma perm_ids_in : forall a b r, Permutation a b -> In r (ids a) -> In r (ids b).
 Proof. intros a b r P H. eapply Permutation_in; [apply ids_perm; eauto|auto]. Qed.
 
 Lemma shrink_rel : forall s s' o, Inv s -> shrink s s' ->
-  (match o with Send _ _ _ _ _ | SendP _ _ _ _ _ | Cancel _ _ | IncreaseFee _ _ _ _ _ | BatchExecuted _ _ _ => False | _ => True end) ->
+  (match o with Send _ _ _ _ _ | SendP _ _ _ _ _ | Cancel _ _ | IncreaseFee _ _ _ _ _ | IncreaseFeeP _ _ _ _ | BatchExecuted _ _ _ => False | _ => True end) ->
   step_rel s s' o.
 Proof.
   intros s s' o I S Ho. destruct S. destruct I. constructor; auto; try lia.
@@ -853,7 +877,7 @@ Lemma perm_in : forall A (a b : list A) x, Permutation a b -> In x a -> In x b.
 Proof. intros; eapply Permutation_in; eauto. Qed.
 
 Lemma same_core_rel : forall s s' o, Inv s ->
-  (match o with Send _ _ _ _ _ | SendP _ _ _ _ _ | Cancel _ _ | IncreaseFee _ _ _ _ _ | BatchExecuted _ _ _ => False | _ => True end) ->
+  (match o with Send _ _ _ _ _ | SendP _ _ _ _ _ | Cancel _ _ | IncreaseFee _ _ _ _ _ | IncreaseFeeP _ _ _ _ | BatchExecuted _ _ _ => False | _ => True end) ->
   pool s' = pool s -> batches s' = batches s -> calls s' = calls s ->
   next_tx s' = next_tx s -> next_batch s' = next_batch s -> next_call s' = next_call s -> step_rel s s' o.
 Proof.
@@ -885,7 +909,16 @@ Proof.
   - (* IncreaseFee *)
     destruct (increase_spec _ _ _ _ _ _ _ _ NDp H) as (Ha & x & L & Hin & Hid & Htok & P & P' & Eb & Ec & Et & Enb & Enc & _).
     constructor; try rewrite Eb; try rewrite Ec; try apply I; auto; try lia.
-    eapply TC_fee with (L := L ++ batch_txs (batches s)); eauto.
+    eapply TC_fee with (L := L ++ batch_txs (batches s)) (who := who) (token := token); eauto.
+    + left; eauto.
+    + unfold live. change (?x :: ?a ++ ?b) with ((x :: a) ++ b). apply Permutation_app_tail; auto.
+    + unfold live. rewrite Eb. change (?x :: ?a ++ ?b) with ((x :: a) ++ b). apply Permutation_app_tail; auto.
+    + eapply perm_in; [apply Permutation_sym, P'|]. simpl; auto.
+  - (* IncreaseFeeP *)
+    destruct (increase_p_spec _ _ _ _ _ _ _ NDp H) as (Ha & x & L & Hin & Hid & Htok & P & P' & Eb & Ec & Et & Enb & Enc & _).
+    constructor; try rewrite Eb; try rewrite Ec; try apply I; auto; try lia.
+    eapply TC_fee with (L := L ++ batch_txs (batches s)) (who := who) (token := token); eauto.
+    + right; reflexivity.
     + unfold live. change (?x :: ?a ++ ?b) with ((x :: a) ++ b). apply Permutation_app_tail; auto.
     + unfold live. rewrite Eb. change (?x :: ?a ++ ?b) with ((x :: a) ++ b). apply Permutation_app_tail; auto.
     + eapply perm_in; [apply Permutation_sym, P'|]. simpl; auto.
@@ -971,7 +1004,7 @@ Proof.
   intros s s' o I [TX BS BN NB CS CN NC] [RR RN].
   assert (IDS : NoDup (ids (live s')) /\ forall x, In x (live s') -> tx_id x < next_tx s').
   { destruct TX as [o P E _ | o sender dest amount fee token _ P Hin E | id who x Hin Hid Hs P E
-                   | id who add token which x L Hin Hid Ha P P' Hin' E | token nonce h b Hb Ht Hn P E].
+                   | o1 id who add token x L Hfi Hin Hid Ha P P' Hin' E | token nonce h b Hb Ht Hn P E].
     - split; [eapply nodup_perm_ids; [apply Permutation_sym; eauto | apply I]|].
       intros x Hx. rewrite E. apply (inv_idlt _ I). eapply perm_in; eauto.
     - split.
@@ -994,8 +1027,9 @@ Proof.
   destruct IDS as [I1 I2]. constructor; auto.
   - intros b Hb. destruct (BS b Hb) as [Hb'|(E & E' & _)]; [apply (inv_bnlt _ I) in Hb'|]; lia.
   - intros c Hc. destruct (CS c Hc) as [Hc'|(E & E' & _)]; [apply (inv_cnlt _ I) in Hc'|]; lia.
-  - intros r Hr. apply RR in Hr. destruct Hr as [[_ Hr]|[-> (a & b & c & d & t & -> & _)]]; auto.
-    inversion TX as [? ? ? F | ? sender dest amount fee token Hs P Hin E | | |]; subst; [contradiction|].
+  - intros r Hr. apply RR in Hr. destruct Hr as [[_ Hr]|[-> (a & b & c & d & t & k & -> & _)]]; auto.
+    inversion TX as [? ? ? F | ? sender dest amount fee token Hs P Hin E | | ? ? ? ? ? ? ? Hfi |]; subst;
+      [contradiction| |destruct Hfi as [(wh & Hfi)|Hfi]; discriminate Hfi].
     apply (in_map tx_id) in Hin. unfold live, ids. rewrite map_app. apply in_or_app. left. exact Hin.
 Qed.
 
@@ -1033,6 +1067,8 @@ Qed.
 
 Ltac nosend := match goal with H : is_send _ _ _ _ _ _ |- _ => destruct H as [H|H]; discriminate H end.
 
+Ltac nofee := match goal with H : is_fee_inc _ _ _ _ _ |- _ => destruct H as [(? & H)|H]; discriminate H end.
+
 Lemma exec_relation : forall s o s' evs, Inv s -> exec s o = ROk (s', evs) -> rel_rel s s' o.
 Proof.
   intros s o s' evs I H. pose proof (exec_rel _ _ _ _ I H) as [TX _ _ _ _ _ _].
@@ -1045,26 +1081,26 @@ Proof.
   destruct o; simpl in H.
   - (* Send *)
     destruct (send_spec _ _ _ _ _ _ _ _ H) as (_ & _ & _ & _ & _ & _ & _ & _ & _ & _ & Er & _).
-    apply KEEP; auto. { intros (a & b & c & d & t & E9 & _). discriminate. }
-    inversion TX as [ | ? ? ? ? ? ? _ P _ _ | | |]; subst; try contradiction; try nosend.
+    apply KEEP; auto. { intros (a & b & c & d & t & k9 & E9 & _). discriminate. }
+    inversion TX as [ | ? ? ? ? ? ? _ P _ _ | | |]; subst; try contradiction; try nosend; try nofee.
     intros r Hr. eapply perm_ids_in; [apply Permutation_sym, P|]. simpl. auto.
   - (* SendP *)
-    destruct (send_p_spec _ _ _ _ _ _ _ _ H) as (_ & _ & _ & _ & _ & _ & _ & _ & _ & _ & _ & [(K & Er & _)|(K & Er & _)]);
-      inversion TX as [ | ? ? ? ? ? ? Hsend P Hin _ | | |]; subst; try contradiction; destruct Hsend as [Hsend|Hsend]; inv Hsend.
-    + apply KEEP; auto. { intros (a & b & c & d & t & E9 & K'). inv E9. congruence. }
+    destruct (send_p_spec _ _ _ _ _ _ _ _ H) as (_ & _ & _ & _ & _ & _ & _ & _ & _ & _ & _ & [(K & Er & _)|(k & K & Ke & Er & _)]);
+      inversion TX as [ | ? ? ? ? ? ? Hsend P Hin _ | | |]; subst; try contradiction; try nofee; destruct Hsend as [Hsend|Hsend]; inv Hsend.
+    + apply KEEP; auto. { intros (a & b & c & d & t & k9 & E9 & K1 & K2). inv E9. rewrite K in K1. inv K1. discriminate K2. }
       intros r Hr. eapply perm_ids_in; [apply Permutation_sym, P|]. simpl. auto.
     + assert (L : forall r, In r (ids (live s)) -> In r (ids (live s'))).
       { intros r Hr. eapply perm_ids_in; [apply Permutation_sym, P|]. simpl. auto. }
       split.
       * intros r. rewrite Er. simpl. split.
-        -- intros [<-|Hr]; [right; split; auto; do 5 eexists; split; [reflexivity | exact K]|].
+        -- intros [<-|Hr]; [right; split; auto; do 6 eexists; split; [reflexivity | split; [exact K | exact Ke]]|].
            left. split; auto. apply L, (inv_rel _ I); auto.
         -- intros [[Hr _]|[-> _]]; auto.
       * rewrite Er. constructor; [|apply I]. intro Hr. apply (inv_rel _ I) in Hr.
         unfold ids in Hr. apply in_map_iff in Hr. destruct Hr as (y & Ey & Hy). apply (inv_idlt _ I) in Hy. lia.
   - (* Cancel *)
     destruct (cancel_spec _ _ _ _ _ NDp H) as (x & Hin & Hid & Hs & _ & _ & _ & _ & _ & _ & _ & _ & _ & k & l & _ & _ & R).
-    inversion TX as [ | | ? ? x' Hin' Hid' Hs' P E | |]; subst; try contradiction; try nosend.
+    inversion TX as [ | | ? ? x' Hin' Hid' Hs' P E | |]; subst; try contradiction; try nosend; try nofee.
     pose proof (nodup_perm_ids _ _ P (inv_ids _ I)) as N. simpl in N. inversion N as [|? ? N1 N2]; subst.
     assert (x' = x) by (eapply nodup_ids_unique; [apply NDp| | |]; auto). subst x'.
     assert (LS : forall r, In r (ids (live s)) -> r <> tx_id x -> In r (ids (live s'))).
@@ -1073,56 +1109,61 @@ Proof.
     + destruct R as [_ Er]. split.
       * intros r. rewrite Er, filter_In, negb_true_iff, Z.eqb_neq. split.
         -- intros [Hr Ne]. left. split; auto. apply LS; auto. apply (inv_rel _ I); auto.
-        -- intros [[Hr Hl]|[_ (a & b & c & d & t & E9 & _)]]; [|discriminate]. split; auto.
+        -- intros [[Hr Hl]|[_ (a & b & c & d & t & k9 & E9 & _)]]; [|discriminate]. split; auto.
            intro E0. subst r. contradiction.
       * rewrite Er. apply NoDup_filter, I.
     + destruct R as [_ Er]. split; [|rewrite Er; apply I].
       intros r. rewrite Er. split.
       * intros Hr. left. split; auto. apply LS; [apply (inv_rel _ I); auto|].
         intro E0. subst r. apply existsb_z in Hr. congruence.
-      * intros [[Hr _]|[_ (a & b & c & d & t & E9 & _)]]; [auto|discriminate].
+      * intros [[Hr _]|[_ (a & b & c & d & t & k9 & E9 & _)]]; [auto|discriminate].
   - (* IncreaseFee *)
     destruct (increase_spec _ _ _ _ _ _ _ _ NDp H) as (_ & x & L & _ & _ & _ & _ & _ & _ & _ & _ & _ & _ & _ & _ & Er & _).
-    apply KEEP; auto. { intros (a & b & c & d & t & E9 & _). discriminate. }
-    inversion TX as [ | | | ? ? ? ? ? x' L' _ _ _ P P' _ _ |]; subst; try contradiction; try nosend.
+    apply KEEP; auto. { intros (a & b & c & d & t & k9 & E9 & _). discriminate. }
+    inversion TX as [ | | | ? ? ? ? ? x' L' _ _ _ _ P P' _ _ |]; subst; try contradiction; try nosend.
+    intros r Hr. apply (perm_ids_in _ _ _ P) in Hr. eapply perm_ids_in; [apply Permutation_sym, P'|]. exact Hr.
+  - (* IncreaseFeeP *)
+    destruct (increase_p_spec _ _ _ _ _ _ _ NDp H) as (_ & x & L & _ & _ & _ & _ & _ & _ & _ & _ & _ & _ & _ & _ & Er & _).
+    apply KEEP; auto. { intros (a & b & c & d & t & k9 & E9 & _). discriminate. }
+    inversion TX as [ | | | ? ? ? ? ? x' L' _ _ _ _ P P' _ _ |]; subst; try contradiction; try nosend.
     intros r Hr. apply (perm_ids_in _ _ _ P) in Hr. eapply perm_ids_in; [apply Permutation_sym, P'|]. exact Hr.
   - (* RequestBatch *)
     destruct (request_batch_spec _ _ _ _ _ _ _ _ _ NDp (inv_bnlt _ I) H) as (b & R). decompose [and] R.
-    apply KEEP; auto. { intros (a & b' & c & d & t & E9 & _). discriminate. }
-    inversion TX as [? P _ _ | | | |]; subst; try nosend. auto.
+    apply KEEP; auto. { intros (a & b' & c & d & t & k9 & E9 & _). discriminate. }
+    inversion TX as [? P _ _ | | | |]; subst; try nosend; try nofee. auto.
   - (* BatchExecuted *)
     destruct (batch_executed_op_spec _ _ _ _ _ _ I H) as (_ & _ & s1 & e1 & e2 & H1 & H2 & _ & S & ND1).
     destruct (batch_executed_relation (observed s h) _ _ _ _ (inv_bn _ I) H1) as (b & F & Er). simpl in F, Er.
     destruct (find_batch_in _ _ _ _ F) as (Hb & Ht & Hn).
-    inversion TX as [ | | | | ? ? ? b' Hb' Ht' Hn' P E]; subst; try contradiction; try nosend.
+    inversion TX as [ | | | | ? ? ? b' Hb' Ht' Hn' P E]; subst; try contradiction; try nosend; try nofee.
     assert (b' = b) by (eapply nodup_bnonce_unique; [apply I| | |]; auto; congruence). subst b'.
     pose proof (nodup_perm_ids _ _ P (inv_ids _ I)) as N. unfold ids in N. rewrite map_app in N.
     unfold rel_rel. rewrite (sh_rel _ _ S), Er. split; [|apply NoDup_filter, I].
     intros r. rewrite filter_In, negb_true_iff, existsb_id_false. split.
     + intros [Hr Nb]. left. split; auto. apply (inv_rel _ I) in Hr. apply (perm_ids_in _ _ _ P) in Hr.
       unfold ids in Hr. rewrite map_app in Hr. apply in_app_or in Hr. destruct Hr; [contradiction|auto].
-    + intros [[Hr Hl]|[_ (a & b0 & c & d & t & E9 & _)]]; [|discriminate]. split; auto.
+    + intros [[Hr Hl]|[_ (a & b0 & c & d & t & k9 & E9 & _)]]; [|discriminate]. split; auto.
       intro Hb0. eapply nodup_app_disj; eauto.
   - (* Observe *)
     destruct (observe_spec _ _ _ _ I H) as (_ & S & _).
-    apply KEEP; [apply (sh_rel _ _ S) | intros (a & b & c & d & t & E9 & _); discriminate|].
-    inversion TX as [? P _ _ | | | |]; subst; try nosend. auto.
+    apply KEEP; [apply (sh_rel _ _ S) | intros (a & b & c & d & t & k9 & E9 & _); discriminate|].
+    inversion TX as [? P _ _ | | | |]; subst; try nosend; try nofee. auto.
   - (* BridgeCall *)
-    apply KEEP; [eapply bridge_call_relation; eauto | intros (a & b & c & d & t & E9 & _); discriminate|].
-    inversion TX as [? P _ _ | | | |]; subst; try nosend. auto.
+    apply KEEP; [eapply bridge_call_relation; eauto | intros (a & b & c & d & t & k9 & E9 & _); discriminate|].
+    inversion TX as [? P _ _ | | | |]; subst; try nosend; try nofee. auto.
   - (* BridgeCallP *)
-    apply KEEP; [eapply bridge_call_p_relation; eauto | intros (a & b & c & d & t & E9 & _); discriminate|].
-    inversion TX as [? P _ _ | | | |]; subst; try nosend. auto.
+    apply KEEP; [eapply bridge_call_p_relation; eauto | intros (a & b & c & d & t & k9 & E9 & _); discriminate|].
+    inversion TX as [? P _ _ | | | |]; subst; try nosend; try nofee. auto.
   - (* ObserveResult *)
     destruct (observe_result_spec _ _ _ _ _ _ I H) as (_ & _ & S & _).
-    apply KEEP; [apply (sh_rel _ _ S) | intros (a & b & c & d & t & E9 & _); discriminate|].
-    inversion TX as [? P _ _ | | | |]; subst; try nosend. auto.
+    apply KEEP; [apply (sh_rel _ _ S) | intros (a & b & c & d & t & k9 & E9 & _); discriminate|].
+    inversion TX as [? P _ _ | | | |]; subst; try nosend; try nofee. auto.
   - (* ExecResult *)
-    apply KEEP; [eapply exec_result_relation; eauto | intros (a & b & c & d & t & E9 & _); discriminate|].
-    inversion TX as [? P _ _ | | | |]; subst; try nosend. auto.
-  - inv H. apply KEEP; auto. intros (a & b & c & d & t & E9 & _); discriminate.
-  - des H. inv H. apply KEEP; auto. intros (a & b & c & d & t & E9 & _); discriminate.
-  - des H. inv H. apply KEEP; auto. intros (a & b & c & d & t & E9 & _); discriminate.
+    apply KEEP; [eapply exec_result_relation; eauto | intros (a & b & c & d & t & k9 & E9 & _); discriminate|].
+    inversion TX as [? P _ _ | | | |]; subst; try nosend; try nofee. auto.
+  - inv H. apply KEEP; auto. intros (a & b & c & d & t & k9 & E9 & _); discriminate.
+  - des H. inv H. apply KEEP; auto. intros (a & b & c & d & t & k9 & E9 & _); discriminate.
+  - des H. inv H. apply KEEP; auto. intros (a & b & c & d & t & k9 & E9 & _); discriminate.
 Qed.
 
 Lemma step_inv : forall s o, Inv s -> Inv (step_state s o).
